@@ -33,7 +33,7 @@ def gen(rng, tier):
     return out
 def impl(c):
     from chipfiring.CFConfig import CFConfig
-    rng = random.Random(c["s"]); G = c["G"]; n = G["n"]; ext = G["names"] + ["zz_unknown0", "zz_unknown1"]
+    rng = random.Random(c["s"]); G = c["G"]; n = G["n"]; ext = common.FreshNames(G["names"] + ["zz_unknown0", "zz_unknown1"])
     d = common.build_impl_divisor(G, c["D"], rng=rng); tgt = CFConfig(d, G["names"][c["q"]]) if c["q"] >= 0 else d
     out = []
     for op in c["ops"]:
